@@ -1,6 +1,7 @@
 """C07 -- user-supplied names are emitted as single, correctly quoted identifiers (DESIGN 2/C07)."""
 from __future__ import annotations
 
+from ..families import is_module_function
 from ..model import AnalysisError, Program
 from ..report import Run
 from ..skel import function_skeletons, quoted_spans, render, renderable_classes, skeletons
@@ -38,6 +39,60 @@ def name_holes(flat):
     return out
 
 
+def _child_classes(program: Program, c, attr: str) -> set:
+    """package classes an instance attribute may hold, from `self.<attr>: T = ...` annotations and constructor calls"""
+    import ast
+    out = set()
+    for k in c.mro:
+        for f in k.methods.values():
+            if f.is_static or not f.params:
+                continue
+            sn = f.params[0]
+            for n in ast.walk(f.node):
+                exprs = []
+                if isinstance(n, ast.AnnAssign) and isinstance(n.target, ast.Attribute) and n.target.attr == attr and isinstance(n.target.value, ast.Name) and n.target.value.id == sn:
+                    exprs = [n.annotation] + ([n.value] if n.value is not None else [])
+                elif isinstance(n, ast.Assign) and any(isinstance(t, ast.Attribute) and t.attr == attr and isinstance(t.value, ast.Name) and t.value.id == sn for t in n.targets):
+                    exprs = [n.value]
+                    if isinstance(n.value, ast.Name):
+                        # `self.<attr> = <parameter>`: the parameter's annotation
+                        a_ = f.node.args
+                        for prm in list(a_.posonlyargs) + list(a_.args) + list(a_.kwonlyargs):
+                            if prm.arg == n.value.id and prm.annotation is not None:
+                                exprs = [prm.annotation]
+                for e in exprs:
+                    for x in ast.walk(e):
+                        names = [x.id] if isinstance(x, ast.Name) else ([w for w in __import__("re").findall(r"[A-Za-z_]\w*", x.value)] if isinstance(x, ast.Constant) and isinstance(x.value, str) else [])
+                        for nm in names:
+                            r = program.resolve_global(f.module, nm)
+                            if r and r[0] == "class":
+                                out.add(r[1])
+    return out
+
+
+def _child_writes_only_its_name(program: Program, c, attr: str, name_attr: str) -> bool:
+    """every class the child attribute may hold renders as its quoted <name_attr> (and its alias) and nothing else: no
+    nested render call, no other name-bearing hole -- so printing the name directly drops nothing"""
+    from ..symex import walk_parts
+    classes = {k for k in _child_classes(program, c, attr) if k.resolve("get_sql") is not None}
+    if not classes:
+        return False
+    for k in classes:
+        try:
+            sk, _ = render(program, k)
+        except AnalysisError:
+            return False
+        for part, _conds, _rep in walk_parts(sk):
+            if isinstance(part, SlotP):
+                return False
+            if isinstance(part, Hole):
+                v = part.value
+                if isinstance(v, Sym) and v.kind in ("attr", "getattr-default") and v.args[1] in NAME_ATTRS:
+                    if v.args[1] not in (name_attr, "alias") or show(v.args[0]) != "self":
+                        return False      # another name, or the name of the child's own child read directly
+    return True
+
+
 def eval_quote(v, ctx: dict):
     """evaluate a quote-character expression under a concrete context record"""
     if isinstance(v, Const):
@@ -52,6 +107,14 @@ def eval_quote(v, ctx: dict):
             if r:
                 return r
         return r
+    if isinstance(v, Phi):
+        # `ctx = ctx or <own query class>.SQL_CONTEXT` at a statement's entry: under a supplied context the supplied
+        # one counts; the default is the statement's own context (the record it is evaluated under when none is given)
+        if "ctx-present" in show(v.cond):
+            return eval_quote(v.a, ctx)
+        a, b = eval_quote(v.a, ctx), eval_quote(v.b, ctx)
+        if a == b:
+            return a
     raise AnalysisError(f"cannot evaluate quote expression {show(v)}")
 
 
@@ -99,14 +162,14 @@ def check(program: Program, run: Run) -> None:
             for i, a, s in holes:
                 p = flat[i]
                 src_cls = p.src[0].rsplit(".", 1)[0] if p.src else c.qualname
-                owner = c.qualname if (p.src and p.src[0].startswith("utils.")) else src_cls
+                owner = c.qualname if (p.src and is_module_function(program, p.src[0])) else src_cls
                 if (owner, a) in EXEMPT or (c.qualname, a) in EXEMPT or any((k.qualname, a) in EXEMPT for k in c.mro):
                     continue
                 inside = [sp for sp in spans if sp[0] < i < sp[1]]
                 n_sites += 1
                 caller = None
                 if p.src and len(p.src) > 3:
-                    chain = [q for q in p.src[3] if not q.startswith("utils.")]
+                    chain = [q for q in p.src[3] if not is_module_function(program, q)]
                     caller = chain[-1] if chain else None
                 site = f"{caller or f.qualname}:{a}"
                 if (site, bool(inside)) in seen_sites:
@@ -163,6 +226,16 @@ def check(program: Program, run: Run) -> None:
         run.finding("C07/unescaped-delimiter:utils.format_quotes", f"no identifier emission doubles the delimiter ({unescaped} site paths go through format_quotes unescaped): a name containing the quote character ends the identifier early (\"c\"d\")",
                     where=fq.loc(), rule="R3")
 
+    # ---- R8: a string operation applied to text that rendered children have already printed rewrites the quoted names inside
+    from ..skel import recv_path as _rp8, transformed_renderings
+    for c_, fn_, op_, inner_ in transformed_renderings(program):
+        what = ", ".join(sorted({_rp8(sp.recv) for sp in inner_}))[:80]
+        run.ob("C07/R8 rendered identifiers reach the statement untouched", f"{fn_}:{op_}", False, detail=what)
+        run.finding(f"C07/rendered-text-transformed:{fn_}:{op_}",
+                    f"{fn_} applies `{op_}` to text that already contains the rendering of {what}: a quoted identifier printed by such a child is rewritten with it, "
+                    "so the statement names something other than what the user supplied", where=f"{inner_[0].src[2]}:{inner_[0].src[1]}" if inner_[0].src else "", rule="R8")
+    run.ob("C07/R8 rendered identifiers reach the statement untouched", "all renderers", True, nontrivial=False)
+
     # ---- R7: a renderer prints its own name; the name of a child object is printed by rendering the child, which also
     # writes the child's own qualifiers (Schema -> parent schemas, Table -> schema).  Reading `self.<child>.<name>` directly
     # bypasses them.  The two reviewed exceptions are column qualifiers, which by design refer to the row source by its
@@ -196,7 +269,7 @@ def check(program: Program, run: Run) -> None:
         for flat in paths(skv, limit=4000):
             for i, a, s_ in name_holes(flat):
                 p_ = flat[i]
-                fn = p_.src[0] if p_.src and not p_.src[0].startswith("utils.") else f.qualname
+                fn = p_.src[0] if p_.src and not is_module_function(program, p_.src[0]) else f.qualname
                 child = foreign_child(p_.value)
                 if child is None or (fn, child) in seen7:
                     continue
@@ -204,6 +277,8 @@ def check(program: Program, run: Run) -> None:
                 n7 += 1
                 owner_cls = fn.rsplit(".", 1)[0] if "." in fn else fn
                 ok = (owner_cls, child) in QUALIFIER_READS or (f.cls is not None and any((k.qualname, child) in QUALIFIER_READS for k in f.cls.mro))
+                if not ok and f.cls is not None and _child_writes_only_its_name(program, f.cls, child, a):
+                    ok = True      # exact: the child's own renderer writes nothing but that (quoted) name and its alias
                 run.ob("C07/R7 a child's name is written by rendering the child", f"{fn}:{child}", ok, detail=s_[:80],
                        where=f"{p_.src[2]}:{p_.src[1]}" if p_.src else "")
                 if not ok:
